@@ -91,6 +91,12 @@ func runUlim(c c06Case) interface{} {
 	lim := flowcontrols.NewUpstreamLimiter(ctx, "c06.example.com", "", nil)
 	lim.Sync(fcSpec(c.Spec))
 	steps := make([]dispStep, 0, len(c.Ops))
+	var held []gwflow.FlowControl
+	defer func() {
+		for _, fc := range held {
+			fc.Release()
+		}
+	}()
 	for _, op := range c.Ops {
 		st := dispStep{}
 		switch op.Op {
@@ -99,7 +105,11 @@ func runUlim(c c06Case) interface{} {
 			fc := gwflow.Pin(lim.GetOrDefault("tb")) // what the dispatcher does per request
 			if fc.TryAcquire() {
 				st.Reached, st.Status = true, 200
-				fc.Release()
+				if op.Hold {
+					held = append(held, fc) // overlapping requests: still in flight while the next ones arrive
+				} else {
+					fc.Release()
+				}
 			} else {
 				st.Status = 429
 			}
